@@ -85,6 +85,14 @@ class Lin:
         t = v[1] if v[0] == "sym" else None
         if v[0] == "ref" and v[1] and v[1][0] == "D" and not v[2]:
             return self.len_of(("sym", v[1][1]))     # reference to what a symbolic pointer points to: that value
+        if v[0] == "ref" and not v[2] and isinstance(v[1], tuple) and v[1] and v[1][0] == "elem" and len(v[1]) > 4 and v[1][4] is not None:
+            # an element handed to a closure by `x.windows(n)` / `x.chunks_exact(n)`: a slice of exactly n items
+            src = self.expand(v[1][4])
+            if isinstance(src, tuple) and src and src[0] == "sym" and src[1][0] == "call" and len(src[1][2]) == 2 \
+                    and src[1][1].split("::")[-1] in ("windows", "chunks_exact"):
+                nn = self.expand(src[1][2][1])
+                if nn[0] == "c" and isinstance(nn[1], int):
+                    return const(nn[1])
         if v[0] == "ref":
             # a reference to a location: its pointee's entry value (slices handed to decoders are immutable)
             return atom(("len", ("sym", ("init", v[1], v[2]))))
